@@ -8,6 +8,7 @@ import (
 	"go/types"
 	"regexp"
 	"sort"
+	"strconv"
 	"strings"
 )
 
@@ -1090,4 +1091,110 @@ func selectorProvenanceIssue(rs *Resid) (ast.Expr, string) {
 		}
 	}
 	return bad, why
+}
+
+// dependencyPlugins: the plugins that other plugins request functions from (deps["name"] in a New function).
+func dependencyPlugins(r *Repo) map[string]bool {
+	out := map[string]bool{}
+	for _, name := range r.Plugins {
+		p := r.ByName[name]
+		if p == nil {
+			continue
+		}
+		for _, f := range p.Syntax {
+			ast.Inspect(f, func(n ast.Node) bool {
+				ix, ok := n.(*ast.IndexExpr)
+				if !ok {
+					return true
+				}
+				if id, ok := ix.X.(*ast.Ident); ok && id.Name == "deps" {
+					if bl, ok := ix.Index.(*ast.BasicLit); ok && bl.Kind == token.STRING {
+						if s, err := strconv.Unquote(bl.Value); err == nil && s != name {
+							out[s] = true
+						}
+					}
+				}
+				return true
+			})
+		}
+	}
+	return out
+}
+
+// rDepValidation (C09, C01): a plugin that serves other plugins is asked for functions through GetFuncName, which registers the
+// types without calling Add. A type that Add rejects because of its shape must therefore be rejected by Generate too; otherwise
+// the unsupported type is diagnosed for a direct call only, and silently turned into text that does not type-check when it is
+// reached through another plugin (deriveHash of a map whose keys deriveSort cannot order).
+func rDepValidation(c *Ctx, plugins ...string) {
+	deps := dependencyPlugins(c.Repo)
+	if len(deps) < 5 {
+		c.Rep.fail(Finding{Rule: "R-dep", Key: "R-dep|vacuity", Kind: "undecided", Msg: fmt.Sprintf("only %d plugins are found to serve other plugins (deps[\"name\"] in New); confirmed by hand: compare, equal, hash, keys, sort, tuple, …", len(deps))})
+		return
+	}
+	// which kinds of type the other plugins ask each plugin for (the first argument of GetFuncName on a dependency): "" = a type
+	// whose kind the requesting path left open
+	requested := map[string]map[string]bool{}
+	for _, q := range c.Repo.Plugins {
+		for _, r := range c.R.Runs(q) {
+			for _, rq := range r.Requests {
+				if rq.Who == "self" || len(rq.Args) == 0 {
+					continue
+				}
+				k := ""
+				if o, ok := rq.Args[0].(*VOpaque); ok && o != nil && strings.HasPrefix(o.Kind, "*types.") {
+					k = o.Kind
+				}
+				if requested[rq.Who] == nil {
+					requested[rq.Who] = map[string]bool{}
+				}
+				requested[rq.Who][k] = true
+			}
+		}
+	}
+	topKind := func(r *Run) string {
+		for _, d := range r.Decisions {
+			sym := strings.Replace(d.Sym, "typs[*]", "typs[0]", 1)
+			if strings.HasPrefix(sym, "A:typs[0]:") && d.Choice == 0 {
+				return strings.TrimPrefix(sym, "A:typs[0]:")
+			}
+			if strings.HasPrefix(sym, "K:typs[0]:") {
+				cands := strings.Split(strings.TrimPrefix(sym, "K:typs[0]:"), ",")
+				if d.Choice < len(cands) {
+					return cands[d.Choice]
+				}
+			}
+		}
+		return ""
+	}
+	for _, p := range plugins {
+		if !deps[p] {
+			continue
+		}
+		n := 0
+		for _, r := range c.R.Runs(p) {
+			if r.Outcome != "rejected" {
+				continue
+			}
+			n++
+			// only shapes some other plugin can ask for: the kind of the rejected type is one that is requested (or left open)
+			if k := topKind(r); r.DepAccepts && k != "" && !requested[p][k] && !requested[p][""] {
+				continue
+			}
+			untypedNil := false
+			for _, d := range r.Decisions {
+				if (strings.HasSuffix(d.Sym, ".Kind()==25") && d.Choice == 0) || (strings.HasSuffix(d.Sym, ".Kind()!=25") && d.Choice == 1) {
+					untypedNil = true // the type of a literal nil argument: only a direct call has one
+				}
+			}
+			if r.DepAccepts && !untypedNil {
+				c.Rep.fail(Finding{Rule: "R-dep", Key: "R-dep|" + p + "|validated-in-Add-only", Plugin: p, Script: r.Script,
+					Msg:    fmt.Sprintf("plugin %s: Add rejects these argument types because of their shape, but Generate, given the same types, emits a function for them: other plugins request %s functions through GetFuncName, which never calls Add, so the unsupported type is only diagnosed for a direct call and becomes text that does not type-check when it is reached through another plugin", p, p),
+					Detail: "abstract path: " + r.describe()})
+				break
+			}
+		}
+		for i := 0; i <= n; i++ {
+			c.Rep.pass("R-dep")
+		}
+	}
 }
